@@ -22,8 +22,10 @@ DOCS = [
     'A w1z.\n',
     '\\section{Head w1z}\nText w2z $x+y$ w3z \\cite{k}.\n\\begin{itemize}\n\\item w4z 𝔸 w5z\n\\end{itemize}\nLast w6z',
     'w1z',
+    'English w1z text \\foreignlanguage{german}{deutscher w2z Text mit mehr als zwei Wörtern} and more w3z.\n'
+    '\\selectlanguage{russian} w4z w5z\n',
 ]
-MODES = ['plain', 'json', 'xml', 'xml-b', 'html', 'html-link', 'plain-ml', 'json-single']
+MODES = ['plain', 'json', 'xml', 'xml-b', 'html', 'html-link', 'plain-ml', 'json-single', 'plain-ml1', 'xml-ml1']
 TYPES = ['int', 'str', 'null', 'list', 'dict', 'bool', 'float', 'negint', 'bigstr']
 
 
@@ -173,6 +175,10 @@ class C15(core.Check):
             src = DOCS[di]
             tex_ = src if src.endswith('\n') else src + '\n'
             (plain, pmap), _ = tex.run(tex_, lang='en-GB', pack='*')
+            if di == 4:
+                # multi-part document: the answer is built for the first submitted part
+                r = tex.run(tex_, ml=True, lang='en-GB', pack='*')[0]
+                plain = r['en-GB'][0][0]
             self.cache[di] = (tex_, plain, faults(base_answer(plain), plain, step=1 if di == 0 else 7))
         return self.cache[di]
 
@@ -214,12 +220,16 @@ class C15(core.Check):
             args += ['--output', 'html', '--link']
         elif mode == 'plain-ml':
             args += ['--output', 'plain', '--multi-language']
+        elif mode in ('plain-ml1', 'xml-ml1'):
+            # multi-language: the faulty answer is given to the first call only, later parts get a valid one
+            args += ['--output', mode.split('-')[0], '--multi-language']
         elif mode == 'json-single':
             args += ['--output', 'json', '--single-letters', 'A|I', '--equation-punctuation', 'all']
         else:
             args += ['--output', mode]
         args.append('f.tex')
-        plan = {'mode': 'raw', 'data': base64.b64encode(data).decode(), 'exit': ex}
+        plan = {'mode': 'raw', 'data': base64.b64encode(data).decode(), 'exit': ex,
+                'all_calls': not mode.endswith('ml1')}
         ltc = '/nonexistent/dir/languagetool-command' if fid == 'command-missing' else None
         r = shellrun.run_shell(args, {'f.tex': src}, plan, workdir=self.tmp, lt_command=ltc)
         stratum = fid.split(':')[0]
@@ -249,7 +259,7 @@ class C15(core.Check):
         lines = tex_.split('\n')
         nl = len(lines) - 1 if tex_.endswith('\n') else len(lines)
         bad = None
-        base = mode.split('-')[0] if mode in ('html-link', 'plain-ml', 'json-single') else mode
+        base = mode.split('-')[0] if mode in ('html-link', 'plain-ml', 'json-single', 'plain-ml1', 'xml-ml1') else mode
         try:
             if base == 'plain':
                 for ln, col in re.findall(r'^\d+\.\) Line (\d+), column (\d+), Rule ID:', out, re.M):
